@@ -196,3 +196,158 @@ def filter_random(rng, count):
     for _ in range(count):
         n = rng.randrange(0, 30)
         yield "FILTER ROWS=" + ",".join(f"{rng.randrange(1, 8)}:{rng.choice([0, 1000, 1000, 2500, rng.randrange(-500, 9000)])}" for _ in range(n))
+
+
+# ------------------------------------------------------------------ segment-level ops
+DEFAULT_P = {"sp": 1000, "dp": 1, "su": -250, "md": 1500, "ms": 1000, "bs": 1200}
+
+
+def pstr(P):
+    return f"sp={P['sp']} dp={P['dp']} su={P['su']} md={P['md']} ms={P['ms']} bs={P['bs']}"
+
+
+def rand_params(rng):
+    P = dict(DEFAULT_P)
+    if rng.random() < 0.5:
+        P["md"] = rng.choice([300, 800, 1500, 3000])
+    if rng.random() < 0.3:
+        P["dp"] = rng.choice([1, 2, 3])
+        P["sp"] = rng.choice([1000, 1500, 4000])
+    if rng.random() < 0.3:
+        P["su"] = rng.choice([-250, -100, -600, 0])
+    if rng.random() < 0.3:
+        P["ms"] = rng.choice([1000, 500, 3000])
+        P["bs"] = rng.choice([1200, 0, 400, 4000])
+    return P
+
+
+def make_reference(rng, n, mean=9000, minsp=500, repeats=True):
+    pos = rand_map(rng, n, mean, minsp)
+    if repeats and rng.random() < 0.4 and n > 12:
+        # tandem repeat: copy a block of spacings
+        i = rng.randrange(2, n - 8)
+        k = rng.randrange(2, 5)
+        gaps = [pos[j + 1] - pos[j] for j in range(i, i + k)]
+        out = pos[:i + k + 1]
+        for _ in range(rng.randrange(1, 4)):
+            for g in gaps:
+                out.append(out[-1] + g)
+        off = out[-1] - pos[i + k]
+        out += [p + off for p in pos[i + k + 1:]]
+        pos = out
+    return pos
+
+
+def make_query(rng, R, noisy=True):
+    """returns (trimmed query positions on + strand, true offset = reference coordinate of query pos 0,
+    description)"""
+    n = len(R)
+    k = rng.randrange(3, min(45, n - 1))
+    i = rng.randrange(0, n - k)
+    win = R[i:i + k]
+    base = win[0]
+    stretch = rng.choice([1.0, 1.0, 0.97, 1.03, 1.06]) if noisy else 1.0
+    Q = []
+    indel_at = rng.randrange(1, k) if (noisy and rng.random() < 0.4 and k > 4) else None
+    indel = rng.choice([-9000, -3000, 2500, 6000, 20000]) if indel_at else 0
+    for j, p in enumerate(win):
+        x = (p - base) * stretch
+        if indel_at is not None and j >= indel_at:
+            x += indel
+        if noisy:
+            if rng.random() < 0.1:
+                continue
+            x += rng.choice([0, 0, rng.randrange(-400, 400)])
+        Q.append(int(round(x)))
+    if noisy:
+        for _ in range(rng.randrange(0, 3)):
+            Q.append(rng.randrange(0, max(1, int((win[-1] - base) * stretch) + 1)))
+    Q = sorted(set(max(0, q) for q in Q))
+    if len(Q) < 2:
+        Q = [0, 5000]
+    q0 = Q[0]
+    Q = [q - q0 for q in Q]
+    return Q, base + q0, (i, k, stretch, indel_at, indel)
+
+
+def mirror(Q):
+    L = Q[-1] + 1
+    return [L - 1 - q for q in reversed(Q)]
+
+
+def ladder(rng, true_off, dense=False):
+    npk = rng.randrange(1, 11) if not dense else rng.randrange(2, 7)
+    step = rng.choice([100, 300, 700, 1500, 3000])
+    c = true_off + rng.randrange(-300, 300)
+    peaks = sorted({c + rng.randrange(-npk, npk + 1) * step + rng.randrange(-50, 50) for _ in range(npk)})
+    rng.shuffle(peaks)
+    return peaks
+
+
+def candidate_random(rng, count, it_rng=True):
+    for _ in range(count):
+        P = rand_params(rng)
+        R = make_reference(rng, rng.randrange(15, 70), rng.choice([3000, 9000, 9000]), rng.choice([200, 500, 2000]))
+        Q, off, _ = make_query(rng, R)
+        rev = rng.randrange(2)
+        if rev:
+            Q = mirror(Q)  # the '-' strand query whose mirrored labels fall on the same diagonal
+        peaks = ladder(rng, off)
+        mult = rng.choice(["1", "1", "1/2", "2", "0"])
+        var = rng.choice([0, 0, 1])
+        rlen = R[-1] + 1 + rng.randrange(0, 3000)
+        yield (f"CANDIDATE {pstr(P)} mult={mult} var={var} it={rng.randrange(1, 9) if it_rng else 1} rev={rev} "
+               f"peaks={','.join(map(str, peaks))} REF={mapstr(1, rlen, 0, R)} QRY={mapstr(7, Q[-1] + 1, 0, Q)}")
+    yield f"CANDIDATE {pstr(DEFAULT_P)} mult=1 var=0 it=1 rev=0 peaks= REF={mapstr(1, 100, 0, [10, 50])} QRY={mapstr(7, 41, 0, [0, 40])}"
+    P = dict(DEFAULT_P, su=10)
+    yield f"CANDIDATE {pstr(P)} mult=1 var=0 it=1 rev=0 peaks=10 REF={mapstr(1, 100000, 0, [10, 5000, 9000])} QRY={mapstr(7, 8991, 0, [0, 8990])}"
+
+
+def candidate_lattice(rng, count):
+    """dense small lattice: tiny coordinates, md in {1,2}, two or three peaks -> many conflicts"""
+    for _ in range(count):
+        nr = rng.randrange(4, 11)
+        R = sorted(rng.sample(range(0, 30), nr))
+        nq = rng.randrange(3, 8)
+        Q = sorted(rng.sample(range(0, 18), nq))
+        Q = [q - Q[0] for q in Q]
+        rev = rng.randrange(2)
+        md = rng.choice([1, 1, 2])
+        P = {"sp": 10, "dp": rng.choice([1, 2, 4]), "su": rng.choice([-1, -2, -3]), "md": md,
+             "ms": rng.choice([10, 15, 20]), "bs": rng.choice([5, 12, 30])}
+        peaks = rng.sample(range(-4, 16), rng.randrange(1, 4))
+        mult = rng.choice(["1", "0", "1/2"])
+        yield (f"CANDIDATE {pstr(P)} mult={mult} var={rng.randrange(2)} it=1 rev={rev} "
+               f"peaks={','.join(map(str, peaks))} REF={mapstr(1, 31, 0, R)} QRY={mapstr(7, Q[-1] + 1, 0, Q)}")
+
+
+def join_exhaustive(tier):
+    vals = (0, 1, 3) if tier == "quick" else (0, 1, 2, 5)
+    # prev = (srp, sqp, sqs, erp, eqp, eqs), cur likewise; sites only decide `reverse`
+    for a in vals:
+        for b in vals:
+            for c in vals:
+                for d in vals:
+                    for crev in (0, 1):
+                        for mult in ("1", "1/2", "0"):
+                            for var in (0, 1):
+                                prev = f"0,0,1,{a},{b},2"
+                                cs, ce = (5, 4) if crev else (4, 5)
+                                cur = f"{c},{d},{cs},{c + a},{d + 1},{ce}"
+                                yield f"JOIN mult={mult} var={var} prev={prev} cur={cur}"
+
+
+def join_random(rng, count):
+    for _ in range(count):
+        def ends():
+            r0 = rng.randrange(0, 100000)
+            q0 = rng.randrange(0, 100000)
+            return r0, q0, r0 + rng.randrange(0, 60000), q0 + rng.randrange(0, 60000)
+        pr = ends()
+        d = rng.randrange(-20000, 40000)
+        cu = (pr[2] + d, pr[3] + d + rng.randrange(-5000, 5000))
+        cu = cu + (cu[0] + rng.randrange(0, 60000), cu[1] + rng.randrange(0, 60000))
+        crev = rng.randrange(2)
+        cs, ce = (9, 3) if crev else (3, 9)
+        yield (f"JOIN mult={rng.choice(['1', '1/2', '3', '0'])} var={rng.randrange(2)} "
+               f"prev={pr[0]},{pr[1]},1,{pr[2]},{pr[3]},2 cur={cu[0]},{cu[1]},{cs},{cu[2]},{cu[3]},{ce}")
